@@ -22,7 +22,7 @@ def run(ctx):
                                        simulate=(120, 4) if tier == 'quick' else (3000, 7),
                                        extra=['ClearingCompiles'] if tier == 'quick' else [],
                                        circs={'c1', 'c3'} if tier == 'quick' else {'c1', 'c2', 'c3'}))
-    pair = ac.tlc_behaviours_pair(ctx, 4 if tier == 'quick' else 5)
+    pair = ac.tlc_behaviours_pair(ctx, 4)       # depth 5 yields tens of thousands of behaviours (a replay costs ~2 s CPU)
     ctx.notes['derived_circuit_behaviours'] = len(pair)
     ctx.notes['deviations_detected_by'] = {d: ac.vacuity(ctx, CALLS, d) for d in ('UpdateVarNoCopy', 'ApplyWritesVariations')}
     ctx.notes['deviations_detected_by']['UpdateVarInPlaceWhenPrivate'] = ac.vacuity(ctx, ac.PAIR_CALLS, 'UpdateVarInPlaceWhenPrivate', maxlen=4)
